@@ -43,7 +43,7 @@ dbus_bool_t _dbus_string_compact (DBusString *str, int max_waste) { return nonde
 static void change_cb (void *data) { G.change_cb++; }
 
 #ifndef VERIF_CAP
-#define VERIF_CAP 0x1000000u      /* capacity of the loader array: any value up to 2^24 entries (the function is loop-free) */
+#define VERIF_CAP 1024u      /* capacity of the loader array in the harness: 64 x DBUS_DEFAULT_MESSAGE_UNIX_FDS. The function is loop-free and the movers are contracts, so the bound only keeps CBMC's counterexample traces (--json-ui) small */
 #endif
 void harness (void)
 {
